@@ -4,7 +4,7 @@
 import random
 import itertools
 
-COSTS = [(1, 1, 2, 2), (1, 1, 0, 0), (2, 1, 1, 5), (1, 3, 5, 1), (3, 2, 1, 1), (1, 1, 0, 1), (1, 2, 0, 3), (2, 1, 3, 0), (1, 4, 2, 2), (2, 3, 7, 4), (1, 1, 9, 9)]
+COSTS = [(1, 1, 2, 2), (1, 1, 0, 0), (2, 1, 1, 5), (1, 3, 5, 1), (3, 2, 1, 1), (1, 1, 0, 1), (1, 2, 0, 3), (2, 1, 3, 0), (3, 1, 6, 6), (1, 4, 2, 2), (4, 1, 2, 9), (2, 3, 7, 4), (1, 1, 9, 9)]
 
 
 class Gen:
@@ -134,7 +134,7 @@ def generate(seed, tier):
             g.mixed(N, s, rng.choice(["RAM", "DISK"]), "memo")
     # ---------------- Revolve family
     NN, RR, DD = (22, 4, 3) if thorough else (14, 3, 2)
-    costs = COSTS if thorough else COSTS[:8]
+    costs = COSTS if thorough else COSTS[:9]
     for N in range(1, NN + 1):
         for r in range(1, RR + 1):
             for c in costs:
